@@ -1416,7 +1416,10 @@ class Simplifier:
                     cond = cond.replace(this.pop().eq(cond))
 
                 if always_true(cond):
-                    return case.args["true"]
+                    # only the first remaining branch is guaranteed to fire
+                    if case is expression.args["ifs"][0]:
+                        return case.args["true"]
+                    break
 
                 if always_false(cond):
                     case.pop()
